@@ -395,6 +395,10 @@ func runC19(ctx *runCtx) {
 	if sh, w := guarded(90*time.Second, func() (string, string) { return bigJSONScenario(2) }); sh != "" {
 		rep.violate(Violation{Kind: "property", Shape: sh, What: w, Replay: map[string]interface{}{"scenario": "big-json", "rounds": 2}})
 	}
+	if sh, w := guarded(60*time.Second, func() (string, string) { return jsonNestedReadScenario(12) }); sh != "" {
+		rep.violate(Violation{Kind: "property", Shape: sh, What: w, Replay: map[string]interface{}{"scenario": "json-nested-read", "rounds": 12}})
+	}
+	rep.eval("scenario/json-nested-read")
 	rep.eval("scenario/big-json")
 	rep.eval("scenario/json-pool")
 	askAndCompare(ctx, lines, expect, what, "json-model-vs-impl")
